@@ -21,7 +21,7 @@ var c01Lines = []string{
 	`x=a y=a`, `x=b y=a`, `{"x":true,"y":"a"}`, `{"x":false,"d":true,"sz":false,"ip":true}`,
 	`{"x":5,"y":"a"}`, `{"x":"7","y":"b","d":"1s"}`, `{"x":"abc"}`, `{"y":"a"}`, `{"x":5.5,"sz":"1KB","ip":"10.0.0.1"}`, `{"x":6,"y":"ab","ip":"10.0.0.77"}`,
 	"\x1b[31ma\x1b[0m", `{"_entry":"ab","y":"a"}`, `{"_entry":"A","y":"b"}`, `{"_entry":"x=5 y=a","b":"\u0061"}`,
-	"from 10.0.0.1 ok", "10.0.0.1 and 10.0.0.9", "peer 192.168.1.7", "v6 ::1 end", "no ip here", "10.0.0.9",
+	"from 10.0.0.1 ok", "10.0.0.1 and 10.0.0.9", "edge 10.0.0.5", "edge 10.0.0.255 10.0.1.0", `ip=10.0.0.5 x=6`, `ip=10.0.0.255`, "peer 192.168.1.7", "v6 ::1 end", "no ip here", "10.0.0.9",
 }
 
 // c01Records: every line once, unique timestamps, stream labels cycling through app in {x,y} x env in {p,absent}.
@@ -74,9 +74,9 @@ func ps(l, op, v string) refmodel.Pred { return &refmodel.PStr{Label: l, Op: op,
 func pn(l, op, kind, lit string) refmodel.Pred {
 	return &refmodel.PNum{Label: l, Op: op, Kind: kind, Lit: lit}
 }
-func pip(l, op, v string) refmodel.Pred      { return &refmodel.PIP{Label: l, Op: op, Value: v} }
+func pip(l, op, v string) refmodel.Pred               { return &refmodel.PIP{Label: l, Op: op, Value: v} }
 func pb(sep string, l, r refmodel.Pred) refmodel.Pred { return &refmodel.PBin{Sep: sep, L: l, R: r} }
-func lab(p refmodel.Pred) refmodel.Stage     { return &refmodel.LabelFilter{P: p} }
+func lab(p refmodel.Pred) refmodel.Stage              { return &refmodel.LabelFilter{P: p} }
 
 func c01Stages() []refmodel.Stage {
 	var a []refmodel.Stage
